@@ -132,11 +132,15 @@ func (th *engThread) release(d time.Duration) bool {
 }
 
 func engRunProgram(ctx *engCtx, th *engThread, g *engGate, prog []Op, clk *int64, out *[]engCallRec, mu *sync.Mutex, barrier func()) {
+	// harness-side preparation of every operation comes first: nothing but the calls runs once the threads are released
+	preps := make([]engPrepped, len(prog))
+	for i, op := range prog {
+		preps[i] = ctx.prep(op)
+	}
 	if barrier != nil {
 		barrier()
 	}
 	for i, op := range prog {
-		doc := engPrep(op)
 		var td *document.TemplateData
 		if op.Name() == "Render" {
 			td = engData(engOpData(op))
@@ -146,7 +150,7 @@ func engRunProgram(ctx *engCtx, th *engThread, g *engGate, prog []Op, clk *int64
 			<-th.resume
 		}
 		b := atomic.AddInt64(clk, 1)
-		ret, _, res, _ := ctx.engCall(op, doc, td)
+		ret, _, res, _ := ctx.engCall(op, preps[i], td)
 		e := atomic.AddInt64(clk, 1)
 		mu.Lock()
 		*out = append(*out, engCallRec{T: th.idx, I: i + 1, Op: op, Ret: ret, Res: res, B: b, E: e})
@@ -173,7 +177,7 @@ func engConcSetup(cc engConcCase) *engCtx {
 		ctx.probe = Op{"data": map[string]interface{}(cc.PData)}
 	}
 	for _, op := range cc.Setup {
-		ctx.engCall(op, engPrep(op), nil)
+		ctx.engCall(op, ctx.prep(op), nil)
 	}
 	return ctx
 }
@@ -184,6 +188,7 @@ func engConcEvent(c Case, cc engConcCase, mode string, ctx *engCtx, calls []engC
 		calls = []engCallRec{}
 	}
 	final, _ := ctx.probes()
+	ctx.cleanup()
 	names := ctx.names
 	return Ev{"ev": "conc", "case": c.ID, "mode": mode, "setup": cc.Setup, "calls": calls, "final": final,
 		"names": names, "pdata": engOpData(ctx.probe), "races": []string{}, "fatal": "", "gates": 0, "stuck": false, "followed": true, "hraces": 0}
@@ -286,6 +291,7 @@ func runEngineGate(c Case, emit Emitter) {
 	var ev Ev
 	if stuck {
 		// the engine may be wedged: do not touch it again
+		ctx.cleanup()
 		ev = Ev{"ev": "conc", "case": c.ID, "mode": "gate", "setup": cc.Setup, "calls": cp, "final": map[string]interface{}{},
 			"names": []string{}, "pdata": engOpData(ctx.probe), "races": []string{}, "fatal": "", "stuck": true, "hraces": 0}
 	} else {
@@ -458,7 +464,7 @@ func runEngineFree(c Case, emit Emitter) {
 		// the child died (or never got to write): one line that carries the diagnosis
 		cc, _ := engConcParse(c)
 		evs = append(evs, Ev{"ev": "conc", "case": c.ID, "mode": "free", "setup": cc.Setup, "calls": []engCallRec{}, "final": map[string]interface{}{},
-			"names": []string{}, "pdata": map[string]interface{}{"v": "", "items": []interface{}{}, "c": false},
+			"names": []string{}, "pdata": map[string]interface{}{"v": "", "items": []interface{}{}, "c": false, "ik": "map"},
 			"races": []string{}, "fatal": "", "gates": 0, "stuck": false, "followed": true})
 	}
 	last := evs[len(evs)-1]
